@@ -197,6 +197,21 @@ def run_C02(tier, rng, chk):
         hist.append(("c02_hist_%d" % i, L))
     out = chk.run_stream(hist, prop="C02")
     res.append(fam("histories(mostly error-free text groups, flag toggles, resets)", hist, out))
+    # no data word has a lasting effect: every 16-bit value in a text data block (PS: all of them;
+    # RT and PTYN: strided in the quick tier), each followed by a probe group with bytes from every
+    # part of the table in the neighbouring cells; the state is NOT restored in between
+    stk = []
+    probe = [0x80E1, 0x24FF, 0x7E5E, 0x41C0]
+    for (kind, step) in (("0A", 1), ("2A", scale(tier, 7, 1)), ("10A", scale(tier, 7, 1))):
+        items = []
+        for w in range(rng.randrange(step), 65536, step):
+            a = rng.randrange(2)
+            items.append(P(0, *text_group(rng, kind, a, 0, w, w)))
+            items.append(P(0, *text_group(rng, kind, 1 - a, 0, rng.choice(probe), rng.choice(probe))))
+        for ci, ch in enumerate(chunks(items, 6000)):
+            stk.append(("c02_sticky_%s_%d" % (kind, ci), ["0 I 0"] + ["0 R %d 1" % f for f in (8, 9, 10)] + ch))
+    out = chk.run_stream(stk, prop="C02")
+    res.append(fam("lasting effects(every 16-bit data word in PS, strided in RT / PTYN, each followed by special characters next to it, no restore)", stk, out))
     return res
 
 
